@@ -391,14 +391,14 @@ fn emit_event(otlp: &emit_otlp::Otlp, id: i64, kind: Kind, mdl: &str, pad: Pad) 
     let ext;
     match kind {
         Kind::Log => {
-            ext = Ext::Point(1_000_000 + id.unsigned_abs());
+            ext = Ext::Point(1_000_000 + id.unsigned_abs() as u128);
         }
         Kind::Span => {
-            ext = Ext::Range(1_000_000, 2_000_000 + id.unsigned_abs());
+            ext = Ext::Range(1_000_000, 2_000_000 + id.unsigned_abs() as u128);
             props.push(("evt_kind".into(), V::Kind(emit::Kind::Span)));
         }
         Kind::Metric => {
-            ext = Ext::Point(1_000_000 + id.unsigned_abs());
+            ext = Ext::Point(1_000_000 + id.unsigned_abs() as u128);
             props.push(("evt_kind".into(), V::Kind(emit::Kind::Metric)));
             props.push(("metric_name".into(), V::Str("m".into())));
             props.push(("metric_agg".into(), V::Str("count".into())));
